@@ -18,6 +18,7 @@ class FactsError(Exception):
 
 INLINE_MAX_PATHS = 12
 INLINE_MAX_DEPTH = 3
+INLINE_MAX_DEPTH_ALL = 9      # summary mode: expand small helpers down to what cannot be inlined, whatever the nesting
 
 
 class Fn:
@@ -213,7 +214,7 @@ class Facts:
 
     def inline_paths(self, fid, depth, canon=False, inline_all=False):
         """walker paths of a new, loop-free, small function that writes through none of its parameters; else None"""
-        if depth >= INLINE_MAX_DEPTH:
+        if depth >= (INLINE_MAX_DEPTH_ALL if inline_all else INLINE_MAX_DEPTH):
             return None
         key = (fid, canon, inline_all)
         if key in self._inline_cache:
